@@ -145,6 +145,15 @@ PROPS = {
         "trusted_base": ["tools/extract.py gen_detectors", "harness/src/s_versions.rs (feature list, craft_append signing fixture)", "lean/Codec.lean, lean/Driver.lean"],
         "assumptions": [],
     },
+    "C17": {
+        "module": "BiscuitModel.Props.C17",
+        "streams": ["keys"],
+        "level_text": "Lean 4 theorems about an executable model of the key encodings at the format level (Model/Keys: PublicKey / PrivateKey from_bytes, from_bytes_hex, from_str, to_prefixed_string, print, to_proto / from_proto with prost's decoding of the PublicKey message, the SPKI frame of ed25519 keys): pub_string_round_trip and priv_string_round_trip (algorithm/hex strings of both algorithms parse back to the same algorithm and bytes), pub_string_trailing_rejected (whatever is appended to a printed public key, the string is refused), hex_round_trip (C14), varint_round_trip (every value below 2^64, whatever follows), proto_round_trip (the protobuf message decodes field by field to the same algorithm and bytes), proto_unknown_algorithm_rejected, wrong_length_rejected_ed25519 / _secp256r1 / _secp256r1_private, der_ed25519_round_trip, der_ed25519_wrong_frame_rejected. Tie: stream keys - key pairs of both algorithms from a seeded generator through every supported encoding and back (raw, hex, strings, protobuf, DER, PEM, KeyPair constructors; the private key always yields the same public key; the PEM body is checked to be the base64 of the DER with an independent decoder); every decoder on genuine encodings and on mutations of them (truncated, extended, a flipped bit or character, upper case, other prefix or separator, the other algorithm's material, the uncompressed SEC1 form, hand-made protobuf messages with swapped / duplicated / missing / unknown fields, out-of-range and non-minimal algorithm values, lengths beyond the input; damaged DER and PEM with swapped labels, cut footers, doubled bodies); verify_signature on genuine and damaged signatures, other keys of either algorithm, other messages. The model predicts the verdict of every text, byte and protobuf decoder and of the ed25519 SPKI frame; an implementation-only oracle covers PKCS#8 / SEC1 DER and PEM (a damaged encoding never yields the genuine key, a genuine one always does, nothing panics).",
+        "level_note": "Partial: whether 32 / 33 bytes are a point of the curve or a valid scalar (ed25519 decompression, SEC1 decoding) is not modelled - the model's `accept` means accepted if the bytes are a point, and the comparator allows a refusal of mutated key bytes; that a signature verifies only under the matching key and message is the assumption on the signature scheme (C01's Scheme hypotheses), observed on the real code by the stream but not proved; DER beyond the ed25519 public-key frame and PEM (pkcs8 / spki / pem-rfc7468 crates) are covered by the oracle only. Remark: secp256r1 public keys are also accepted in the 65-byte uncompressed SEC1 form and re-encoded compressed.",
+        "rule": "keys stream: corpus (the fixed finding) first, then seeded cases in the proportions round trip 1 : text decoders 2 : byte / protobuf decoders 1 : DER / PEM decoders 1 : verify 1; non-trivial = round trip, verify, or a decode of a mutated input; distinct = distinct case JSON",
+        "trusted_base": ["harness/src/s_keys.rs (generator, mutations, hand-made protobuf)", "tools/props.py cmp_keys, oracle_keys", "lean/Codec.lean, lean/Driver.lean runKeys", "hook H2 (00f04bf): re-export of the signature type under cfg(biscuit_verif)"],
+        "assumptions": ["signature scheme: verify(pk, m, s) holds only for s = sign(sk, m) with pk = public(sk) (observed, not proved)"],
+    },
     "C20": {
         "module": "BiscuitModel.Props.C20",
         "streams": ["params"],
@@ -157,7 +166,7 @@ PROPS = {
 }
 
 
-HOOK_COMMITS = ["c507bdb"]
+HOOK_COMMITS = ["c507bdb", "00f04bf"]
 
 # ---------------------------------------------------------------- comparators
 def cmp_default(case, impl, model):
@@ -618,7 +627,69 @@ def match_map_key_parameter_type(k, d):
     return bool(res) and all(n in bound and not ("int" in bound[n] or "str" in bound[n]) for n in res)
 
 
-COMPARATORS = {"params": cmp_params, "print": cmp_print, "snapshot": cmp_snapshot, "symbols": cmp_symbols, "versions": cmp_versions, "chain": cmp_chain, "limits": cmp_limits, "expr": cmp_default, "engine": cmp_engine, "authz": cmp_authz, "atten": cmp_atten, "determ": cmp_determ}
+# ---------------------------------------------------------------- keys stream (C17)
+def cmp_keys(case, impl, model):
+    if "driver_error" in model:
+        return "driver error: %s" % model["driver_error"]
+    if "panic" in impl:
+        return "implementation panicked: %s" % impl["panic"]
+    kind = case["kind"]
+    if kind == "roundtrip":
+        if impl["pk"] != case["pk"]:
+            return "the private key yields another public key: %s vs %s" % (impl["pk"], case["pk"])
+        for k in ("pub_hex", "pub_string", "priv_hex", "priv_string", "pub_proto", "pub_der"):
+            if model.get(k) is not None and impl[k] != model[k]:
+                return "%s differs: %s vs %s" % (k, impl[k], model[k])
+        if impl["pub_print"] != impl["pub_string"]:
+            return "print() and Display differ"
+        for k, v in model["back"].items():
+            if v is not None and (v is not True or impl["back"].get(k) is not True):
+                return "round trip through %s: implementation %s, model %s" % (k, impl["back"].get(k), v)
+        return None
+    if kind == "decode":
+        if model["r"] == "unmodelled":
+            return "skip"
+        if model["r"] == "err":
+            return None if impl["r"] == "err" else "accepted by the implementation (%s %s), refused by the model" % (impl.get("alg"), impl.get("bytes"))
+        # format accepted: the bytes may still not be a point / a scalar, except for genuine encodings
+        if impl["r"] == "err":
+            return "a genuine encoding is refused: %s" % impl.get("e") if case.get("mutation") == "none" and case["alg"] == case["from_alg"] else None
+        if impl["alg"] != model["alg"] or (model["bytes"] is not None and impl["bytes"] != model["bytes"]):
+            return "decoded key differs: %s/%s vs %s/%s" % (impl["alg"], impl["bytes"], model["alg"], model["bytes"])
+        return None
+    if impl["verified"] != model["expect"]:
+        return "verify_signature gives %s where key, message and signature are %s" % (impl["verified"], "genuine" if model["expect"] else "not all genuine")
+    return None
+
+
+def oracle_keys(case, impl):
+    """C17 on the implementation alone: every round trip gives the key back, and the decoders the model does
+    not cover (PKCS#8 / SPKI DER beyond the ed25519 frame, PEM) never return the genuine key for a damaged
+    encoding nor panic"""
+    if "panic" in impl:
+        return "panic: %s" % impl["panic"]
+    if case["kind"] == "roundtrip":
+        bad = [k for k, v in impl["back"].items() if v is not True]
+        if bad:
+            return "round trip fails through %s" % ", ".join(sorted(bad))
+        if not impl["pem_is_der"]:
+            return "the PEM body is not the base64 of the DER encoding"
+        return None
+    if case["kind"] == "decode" and "genuine_key" in case:
+        m = case.get("mutation")
+        if m == "none":
+            if impl["r"] != "key" and case["alg"] == case["from_alg"]:
+                return "genuine %s refused: %s" % (case["what"], impl.get("e"))
+            if impl["r"] == "key" and impl["bytes"] != case["genuine_key"]:
+                return "genuine %s decodes to another key" % case["what"]
+            if impl["r"] == "key" and case["what"].endswith("_alg") and case["alg"] != case["from_alg"]:
+                return "%s accepted a key of the other algorithm" % case["what"]
+        elif impl["r"] == "key" and impl["bytes"] == case["genuine_key"]:
+            return "damaged %s (%s) accepted as the genuine key" % (case["what"], m)
+    return None
+
+
+COMPARATORS = {"keys": cmp_keys, "params": cmp_params, "print": cmp_print, "snapshot": cmp_snapshot, "symbols": cmp_symbols, "versions": cmp_versions, "chain": cmp_chain, "limits": cmp_limits, "expr": cmp_default, "engine": cmp_engine, "authz": cmp_authz, "atten": cmp_atten, "determ": cmp_determ}
 
 
 def nontrivial(stream, case, impl):
@@ -642,6 +713,8 @@ def nontrivial(stream, case, impl):
         return impl["ext"].get("r") in ("ok", "nomatch", "unauth") and impl["base"].get("r") in ("ok", "nomatch", "unauth")
     if stream == "engine":
         return impl.get("r") == "ok" and impl.get("iterations", 0) >= 1
+    if stream == "keys":
+        return case["kind"] != "decode" or case.get("mutation") != "none"
     if stream == "params":
         return len(case["binds"]) >= 1 and '"param"' in json.dumps(case["item"])
     if stream == "print":
@@ -780,7 +853,7 @@ def oracle_limits(case, impl):
     return None
 
 
-ORACLES = {("C20", "params"): oracle_params, ("C14", "print"): oracle_print, ("C13", "snapshot"): oracle_snapshot, ("C12", "symbols"): oracle_symbols, ("C10", "limits"): oracle_limits, ("C06", "expr"): oracle_expr, ("C03", "atten"): oracle_atten}
+ORACLES = {("C17", "keys"): oracle_keys, ("C20", "params"): oracle_params, ("C14", "print"): oracle_print, ("C13", "snapshot"): oracle_snapshot, ("C12", "symbols"): oracle_symbols, ("C10", "limits"): oracle_limits, ("C06", "expr"): oracle_expr, ("C03", "atten"): oracle_atten}
 
 
 def signature(d):
